@@ -4,6 +4,7 @@
 #pragma once
 
 #include <QHash>
+#include <QMutex>
 
 #include "../formatter.h"
 #include "../logger_global.h"
@@ -29,6 +30,9 @@ private:
     bool m_colorize = false;
     int m_maxCategoryWidth = 15;
 
+    // instance() hands one formatter to every pipeline that asks for it, and pipelines lock
+    // independently: the thread table and the column width are guarded by a lock of their own
+    QMutex m_mutex;
     QHash<int, int> m_threads;
     int m_threadsIndex = 0;
     int m_categoryWidth = 0;
